@@ -85,64 +85,10 @@ func genWrites(c *Ctx) (string, error) {
 	for _, pkg := range p.Lib {
 		a.lib[pkg] = true
 	}
-	// all functions of the library packages, anonymous ones included
-	// (AllFunctions is reachability-based; the explicit walk over members and method sets
-	// makes sure that methods of unexported, otherwise unreferenced types are included)
-	cand := map[*ssa.Function]bool{}
-	var add func(fn *ssa.Function)
-	add = func(fn *ssa.Function) {
-		if fn == nil || cand[fn] {
-			return
-		}
-		cand[fn] = true
-		for _, an := range fn.AnonFuncs {
-			add(an)
-		}
+	fns, err := libFunctions(p)
+	if err != nil {
+		return "", err
 	}
-	for fn := range ssautil.AllFunctions(p.SSA) {
-		add(fn)
-	}
-	for _, pkg := range p.Lib {
-		for _, m := range pkg.Members {
-			switch m := m.(type) {
-			case *ssa.Function:
-				add(m)
-			case *ssa.Type:
-				for _, t := range []types.Type{m.Type(), types.NewPointer(m.Type())} {
-					ms := p.SSA.MethodSets.MethodSet(t)
-					for i := 0; i < ms.Len(); i++ {
-						add(p.SSA.MethodValue(ms.At(i)))
-					}
-				}
-			}
-		}
-	}
-	var fns []*ssa.Function
-	for fn := range cand {
-		if fn.Blocks == nil {
-			continue
-		}
-		if pkg := outermost(fn).Pkg; pkg == nil || !a.lib[pkg] {
-			continue
-		}
-		if fn.Synthetic != "" && fn.Synthetic != "package initializer" {
-			continue // wrappers, thunks, bound-method closures: no source-level stores
-		}
-		fns = append(fns, fn)
-	}
-	if len(fns) == 0 {
-		return "", fmt.Errorf("no function bodies found in the library packages")
-	}
-	sort.Slice(fns, func(i, j int) bool {
-		pi, pj := outermost(fns[i]).Pkg.Pkg.Path(), outermost(fns[j]).Pkg.Pkg.Path()
-		if pi != pj {
-			return pi < pj
-		}
-		if fns[i].String() != fns[j].String() {
-			return fns[i].String() < fns[j].String()
-		}
-		return fns[i].Pos() < fns[j].Pos()
-	})
 	for _, fn := range fns {
 		for _, b := range fn.Blocks {
 			for _, ins := range b.Instrs {
@@ -239,6 +185,74 @@ func genWrites(c *Ctx) (string, error) {
 	fmt.Printf("translate: T3 %d functions, %d stores, %d rows: capturedLocal=%d capturedEscaping=%d synchronised=%d global=%d\n",
 		len(fns), nStores, len(facts), counts["capturedLocal"], counts["capturedEscaping"], counts["synchronised"], counts["global"])
 	return sb.String(), nil
+}
+
+// libFunctions lists every function body of the library packages (anonymous functions and methods of
+// unexported types included), in a deterministic order.
+func libFunctions(p *Program) ([]*ssa.Function, error) {
+	lib := map[*ssa.Package]bool{}
+	for _, pkg := range p.Lib {
+		lib[pkg] = true
+	}
+	// all functions of the library packages, anonymous ones included
+	// (AllFunctions is reachability-based; the explicit walk over members and method sets
+	// makes sure that methods of unexported, otherwise unreferenced types are included)
+	cand := map[*ssa.Function]bool{}
+	var add func(fn *ssa.Function)
+	add = func(fn *ssa.Function) {
+		if fn == nil || cand[fn] {
+			return
+		}
+		cand[fn] = true
+		for _, an := range fn.AnonFuncs {
+			add(an)
+		}
+	}
+	for fn := range ssautil.AllFunctions(p.SSA) {
+		add(fn)
+	}
+	for _, pkg := range p.Lib {
+		for _, m := range pkg.Members {
+			switch m := m.(type) {
+			case *ssa.Function:
+				add(m)
+			case *ssa.Type:
+				for _, t := range []types.Type{m.Type(), types.NewPointer(m.Type())} {
+					ms := p.SSA.MethodSets.MethodSet(t)
+					for i := 0; i < ms.Len(); i++ {
+						add(p.SSA.MethodValue(ms.At(i)))
+					}
+				}
+			}
+		}
+	}
+	var fns []*ssa.Function
+	for fn := range cand {
+		if fn.Blocks == nil {
+			continue
+		}
+		if pkg := outermost(fn).Pkg; pkg == nil || !lib[pkg] {
+			continue
+		}
+		if fn.Synthetic != "" && fn.Synthetic != "package initializer" {
+			continue // wrappers, thunks, bound-method closures: no source-level stores
+		}
+		fns = append(fns, fn)
+	}
+	if len(fns) == 0 {
+		return nil, fmt.Errorf("no function bodies found in the library packages")
+	}
+	sort.Slice(fns, func(i, j int) bool {
+		pi, pj := outermost(fns[i]).Pkg.Pkg.Path(), outermost(fns[j]).Pkg.Pkg.Path()
+		if pi != pj {
+			return pi < pj
+		}
+		if fns[i].String() != fns[j].String() {
+			return fns[i].String() < fns[j].String()
+		}
+		return fns[i].Pos() < fns[j].Pos()
+	})
+	return fns, nil
 }
 
 func outermost(fn *ssa.Function) *ssa.Function {
